@@ -270,7 +270,13 @@ func ratBits(r *big.Rat) string {
 	return s + "/" + r.Denom().Text(2)
 }
 func dotted(s string) string { return strings.ReplaceAll(sxStr(s), " ", ".") }
-func canonDoc(d Doc) string {
+
+// canonDoc prints a document for comparison: numbers by value; object members sorted by
+// name (member order of a schema object is not an observable of any property) except inside
+// the value of a "properties" member, whose order C19 prescribes.
+func canonDoc(d Doc) string { return canonDocP(d, false) }
+
+func canonDocP(d Doc, keepOrder bool) string {
 	switch x := d.(type) {
 	case DNull:
 		return "null"
@@ -280,19 +286,24 @@ func canonDoc(d Doc) string {
 		}
 		return "f"
 	case DNum:
-		return "n" + ratBits(ratOf(string(x)))
+		// every number of a schema document is a float64 to the package
+		return "n" + ratBits(ratOfFloat64Lit(string(x)))
 	case DStr:
 		return "s[" + dotted(string(x)) + "]"
 	case DArr:
 		parts := make([]string, len(x))
 		for i, e := range x {
-			parts[i] = canonDoc(e)
+			parts[i] = canonDocP(e, false)
 		}
 		return "a(" + strings.Join(parts, ",") + ")"
 	case DObj:
-		parts := make([]string, len(x))
-		for i, m := range x {
-			parts[i] = "[" + dotted(m.K) + "]:" + canonDoc(m.V)
+		ms := append(DObj{}, x...)
+		if !keepOrder {
+			sort.SliceStable(ms, func(i, j int) bool { return ms[i].K < ms[j].K })
+		}
+		parts := make([]string, len(ms))
+		for i, m := range ms {
+			parts[i] = "[" + dotted(m.K) + "]:" + canonDocP(m.V, m.K == "properties")
 		}
 		return "o(" + strings.Join(parts, ",") + ")"
 	}
